@@ -27,8 +27,10 @@ type c04Op struct {
 }
 
 type c04Case struct {
-	Spaces int     `json:"spaces"`
-	Ops    []c04Op `json:"ops"`
+	Spaces    int     `json:"spaces"`
+	Ops       []c04Op `json:"ops"`
+	Hi        uint64  `json:"hi,omitempty"`        // frames with upper-half physical names (vmMachine.hiMask)
+	RootFlags uint64  `json:"rootflags,omitempty"` // extra bits on the boot root's recursive entry
 }
 
 type c04Stats struct {
@@ -42,11 +44,19 @@ func (op c04Op) page() uint64 {
 func c04Run(c c04Case) (fail *vlib.Failure, rs c04Stats) {
 	defer vlib.Guard("C04", c, nil)()
 	m := vmNew()
+	m.hiMask, m.rootExtra = c.Hi, uintptr(c.RootFlags)
 	roots := []mm.Frame{m.newRoot()}
 	m.cr3 = roots[0].Address()
 	pdts := []PageDirectoryTable{{pdtFrame: roots[0]}}
+	activated := map[int]bool{}
+	for _, op := range c.Ops {
+		if op.Kind == "activate" {
+			activated[op.Space%c.Spaces] = true
+		}
+	}
 	for i := 1; i < c.Spaces; i++ {
-		f := m.newFrame()
+		// the root of a space that becomes active has to be host-addressable (see lowNext)
+		f := m.newFrameNamed(!activated[i] && m.hiMask>>(uint(m.next)%64)&1 == 1)
 		var p PageDirectoryTable
 		var err *kernel.Error
 		if pc := vlib.Catch(func() { err = p.Init(f) }); pc.Panicked || err != nil {
@@ -374,6 +384,7 @@ func TestVerifC04(t *testing.T) {
 	rapid.Check(t, func(t *rapid.T) {
 		var c c04Case
 		c.Spaces = rapid.IntRange(1, 3).Draw(t, "spaces")
+		c.Hi, c.RootFlags = vmGenPhys(t)
 		spaces := c.Spaces
 		// rapid's slice lengths are strongly biased towards short lists: draw a minimum
 		// length first so that long histories are common (elements can still be deleted
